@@ -41,7 +41,7 @@ ASSUMPTIONS = [
     'reference layout assigns to that leaf (wrappers\' transforms are C05/C07)']
 REQUIRED = ['em:gauss', 'em:mult', 'em:cm', 'em:lognorm', 'em:reduced', 'steer:cm', 'pop:gauss', 'pop:lognorm',
             'pop:trunc', 'pop:pooled', 'pop:hetero', 'noncentered', 'cov', 'comp', 'red', 'steer:trunc', 'trunc_far_tail',
-            'covmode:tile', 'covmode:rows', 'cov_units:tiny:tile']
+            'covmode:tile', 'covmode:rows', 'cov_units:tiny:tile', 'late_n_ids']
 EM_KINDS = ['gauss', 'mult', 'cm', 'lognorm']
 SEEDS = st.integers(0, 2 ** 31 - 2)
 
@@ -460,6 +460,20 @@ def _n1(pop):
     return 3000 if trunc_in_cov else 8000
 
 
+def _late(s):
+    pop = s['pop']
+    if not popgen.has(pop, 'hetero') or popgen.has(pop, 'red') or s['n_ids'] < 2:
+        return False
+    # (a covariate model around a heterogeneous model selects per-individual parameters: built at full size)
+    def cov_hetero(p):
+        if p['kind'] == 'cov':
+            return p['base']['kind'] == 'hetero'
+        if p['kind'] == 'comp':
+            return any(cov_hetero(q) for q in p['parts'])
+        return False
+    return not cov_hetero(pop) and int(s['seed']) % 2 == 0
+
+
 def _check_pop(case):
     s = case.spec
     pop, n_ids = s['pop'], s['n_ids']
@@ -471,7 +485,14 @@ def _check_pop(case):
 
     m = None
     with case.clause('pop_construct'):
-        m = ref.build_pop(pop, None, n_ids)
+        if _late(s):
+            # built for the default single individual (or a smaller number) and grown afterwards
+            m = ref.build_pop(pop, None, None)
+            if n_ids >= 3:
+                m.set_n_ids(n_ids - 1)
+            case.labels.append('late_n_ids')
+        else:
+            m = ref.build_pop(pop, None, n_ids)
         m.set_n_ids(n_ids)
         leaf_models = []
         for lf in leaves:
